@@ -23,7 +23,9 @@ def step (line : String) : String :=
   match Drv.words line with
   | ["unary", inb, pol, full, nss] =>
     match parsePolicy pol with
-    | some p => showDec (handleUnary (inb == "1") p full (if nss = "." then [] else (nss.splitOn ",").map fun n => if n = "-" then "" else n))
+    | some p =>
+      if nss = "!" then showDec (handleUnaryV (inb == "1") p full none) else
+      showDec (handleUnary (inb == "1") p full (if nss = "." then [] else (nss.splitOn ",").map fun n => if n = "-" then "" else n))
     | none => "bad-op"
   | ["stream", inb, pol, full, _] =>
     match parsePolicy pol with
